@@ -32,23 +32,28 @@ TRUSTED = ["numpy float32 arithmetic is exact on the dyadic inputs of the exact 
            "numpy.linalg.inv / matmul / remainder used by move_inside_box are exact on diagonal power-of-two boxes"]
 ASSUMPTIONS = ["float32 rounding in cell binning, ceil(radius/cell_size) and sq_dist <= sq_radius is not modelled (ℚ model); "
                "general floats are only tested against a float64 brute force with a 1e-4 relative guard band",
-               "triclinic periodic boxes: numeric oracle only (angles 60..120 deg), no theorem; the periodic theorems are for orthorhombic boxes diag(Lx,Ly,Lz), L > 0",
+               "triclinic periodic boxes: minimum-image theorem only for r <= half the smallest box height (HalfHeight); beyond it exactness w.r.t. the 27 images only (known finding for strongly skewed cells); float triclinic boxes (62..118 deg) by oracle",
                "memory safety of the malloc'd pointer cells is not a theorem; only the index invariant "
                "0 <= cell index < cell_count is proved on the ℚ model (C14_cells_in_grid)",
                "result-buffer length must stay below 2^31 (hypothesis NoOverflow / Guard.fits); beyond it the code fails (known finding)"]
 LEVEL_TEXT = ("Lean 4 proofs over ℚ for all inputs: window sufficiency with C truncation for any query point, "
               "get_atoms = {d² ≤ r²} as a set (indices ⇔ masks, scalar ⇔ per-query radii, selection), cell queries ⊇ "
-              "Chebyshev ball, adjacency symmetric = thresholded distances; periodic orthorhombic mode proved as one theorem: "
-              "get_atoms = {a | minimum-image dist² ≤ r²} for every query point and every r ≥ 0 (no r-vs-box hypothesis is "
-              "needed; incl. the repeat_box_coord index bookkeeping position = image·n + atom and `% n`), periodic cell "
-              "queries ⊇ lattice Chebyshev ball, periodic adjacency = thresholded minimum-image matrix, symmetric; tied to "
-              "celllist.pyx / box.py by an exact dyadic correspondence stream and regenerated loop bounds. Partial: float32 "
-              "rounding, triclinic boxes and pointer-cell memory safety are exercised, not proved.")
+              "Chebyshev ball, adjacency symmetric = thresholded distances. Periodic mode, general invertible box matrix "
+              "(move_inside_box through fractional coordinates, 27-fold replication, `% n`): get_atoms = atoms with one of "
+              "the 27 images within r of the moved-inside query (what the code computes, any box); this equals "
+              "{a | minimum over ALL lattice vectors ≤ r²} unconditionally for boxes with pairwise orthogonal vectors in any "
+              "orientation, and for general triclinic boxes when r ≤ half the smallest box height; beyond that a decide "
+              "witness shows a missed neighbour (known finding, replayed). Axis-aligned orthorhombic boxes additionally: "
+              "explicit minimum-image distance, masks, cell-query superset, adjacency = thresholded minimum-image matrix, "
+              "symmetric. Tied to celllist.pyx / box.py by an exact dyadic correspondence stream (diagonal, signed-permutation "
+              "and triclinic box matrices) and regenerated loop bounds. Partial: float32 rounding, triclinic radii beyond "
+              "half the box height and pointer-cell memory safety are exercised, not proved.")
 LEVEL_NOTE = "ℚ model of float32 code; exact only where float32 arithmetic is exact; int overflow of the buffer length is a known finding"
 TECHNIQUE = "Lean 4 proof (floor/ceil/trunc arithmetic over ℚ, list membership invariants) + exact dyadic correspondence + float64 brute-force oracle"
 
 K_OVERFLOW = "C14/result-buffer-length-int-overflow"
 K_F32GRID = "C14/float32-cell-count-rounding/atom-outside-grid"
+K_TRICLINIC = "C14/periodic/skewed-triclinic-box/minimum-image-outside-27-replicas"
 
 
 # ---------------------------------------------------------------- translator (Gen)
@@ -326,17 +331,60 @@ def run_impl(case):
 
 
 # ---------------------------------------------------------------- property oracle (independent of the model)
+def _mat_inv(M):
+    """Exact inverse (Fractions) of a 3x3 integer matrix given as 9 ints row-major; None if singular."""
+    a1, a2, a3, b1, b2, b3, c1, c2, c3 = [Fraction(x) for x in M]
+    det = a1 * (b2 * c3 - b3 * c2) - a2 * (b1 * c3 - b3 * c1) + a3 * (b1 * c2 - b2 * c1)
+    if det == 0:
+        return None
+    return [[(b2 * c3 - b3 * c2) / det, (a3 * c2 - a2 * c3) / det, (a2 * b3 - a3 * b2) / det],
+            [(b3 * c1 - b1 * c3) / det, (a1 * c3 - a3 * c1) / det, (a3 * b1 - a1 * b3) / det],
+            [(b1 * c2 - b2 * c1) / det, (a2 * c1 - a1 * c2) / det, (a1 * b2 - a2 * b1) / det]]
+
+
+def _is_orthogonal_rows(M):
+    r = [M[0:3], M[3:6], M[6:9]]
+    return all(sum(r[i][k] * r[j][k] for k in range(3)) == 0 for i, j in ((0, 1), (0, 2), (1, 2)))
+
+
+def _lattice_min(M, inv, d, cheb=False):
+    """Exact minimum over ALL lattice vectors n@M of |d + n@M|^2 (or the Chebyshev norm): d integer vector."""
+    rows = [M[0:3], M[3:6], M[6:9]]
+    f = [sum(Fraction(d[k]) * inv[k][i] for k in range(3)) for i in range(3)]
+    n0 = [-round(x) for x in f]
+
+    def vec(nv):
+        return [d[k] + sum(nv[i] * rows[i][k] for i in range(3)) for k in range(3)]
+
+    def val(v):
+        return max(abs(x) for x in v) if cheb else sum(x * x for x in v)
+    v0 = vec(n0)
+    R2 = sum(x * x for x in v0)                      # Euclidean bound also bounds the Chebyshev search (cheb <= eucl)
+    cn = [math.sqrt(float(sum(inv[k][i] ** 2 for k in range(3)))) for i in range(3)]
+    K = [int(math.sqrt(float(R2)) * cn[i]) + 2 for i in range(3)]
+    best = val(v0)
+    for i in range(-K[0], K[0] + 1):
+        for j in range(-K[1], K[1] + 1):
+            for k in range(-K[2], K[2] + 1):
+                c = val(vec([n0[0] + i, n0[1] + j, n0[2] + k]))
+                if c < best:
+                    best = c
+    return best
+
+
 def _exact_sets(spec, q):
-    """Brute force over exact rationals (ints / 2^S share the scale, so integers suffice)."""
+    """Brute force over exact rationals (ints / 2^S share the scale, so integers suffice).
+    Periodic: true minimum image over ALL lattice vectors (per axis for diagonal boxes, exact search otherwise)."""
     coords = spec["coords"]
     n = len(coords)
     sel = spec["sel"] if spec["sel"] is not None else [True] * n
     box = spec["box"]
-    if box is not None and len(box) == 9:
-        # rows are axis-parallel vectors: same lattice as the axis-aligned box with these per-axis lengths
-        box = [sum(abs(box[3 * i + a]) for i in range(3)) for a in range(3)]
+    full = box is not None and len(box) == 9
+    inv = _mat_inv(box) if full else None
 
     def d2(a, p):
+        if full:
+            return _lattice_min(box, inv, [a[k] - p[k] for k in range(3)])
         t = 0
         for ax in range(3):
             d = a[ax] - p[ax]
@@ -348,6 +396,12 @@ def _exact_sets(spec, q):
         return t
 
     def cheb(a, p):
+        if full:
+            if _is_orthogonal_rows(box) and all(sum(1 for x in box[3 * i:3 * i + 3] if x) == 1 for i in range(3)):
+                return _lattice_min(box, inv, [a[k] - p[k] for k in range(3)], cheb=True)
+            # skewed / rotated boxes: only the (weaker) Euclidean ball is required inside the cell query
+            m2 = _lattice_min(box, inv, [a[k] - p[k] for k in range(3)])
+            return (math.isqrt(m2 - 1) + 1) if m2 > 0 else 0      # ceil(sqrt(m2)): <= k  iff  m2 <= k^2
         m = 0
         for ax in range(3):
             d = a[ax] - p[ax]
@@ -366,6 +420,16 @@ def _exact_sets(spec, q):
         return [[j for j in range(n) if sel[j] and d2(coords[j], p) <= r * r] for p, r in zip(q["q"], rads)], None
     # cells: required subset
     return None, [[j for j in range(n) if sel[j] and cheb(coords[j], p) <= c * spec["cs"]] for p, c in zip(q["q"], rads)]
+
+
+def _beyond_half_height(spec, r):
+    """True iff the box is not orthogonal and radius r (same integer scale) exceeds half of some box height:
+    4 r^2 |column_i(inv)|^2 > 1 — outside the hypothesis of C14_triclinic_min_image."""
+    box = spec["box"]
+    if box is None or len(box) != 9 or _is_orthogonal_rows(box):
+        return False
+    inv = _mat_inv(box)
+    return any(4 * Fraction(r) ** 2 * sum(inv[k][i] ** 2 for k in range(3)) > 1 for i in range(3))
 
 
 def _float_bounds(np, coords32, box, sel, q):
@@ -539,7 +603,11 @@ def _oracle_body(case):
                 rows_w = _query(np, cl, q, n, box is not None, exact, spec.get("S", 0), wide=True, issues=issues_w)
                 for kind_, msg_ in issues_w:
                     v.append((f"C14/{q['op']}/{kind_}", msg_))
-                if exact and rows_w != rows:
+                # (a float32 LAPACK inverse of a triclinic box carries ~1e-18 garbage in its zero entries: with float64
+                #  coordinates move_inside_box keeps that error, so equality is only demanded where inv(box) is exact)
+                inv_exact = spec["box"] is None or len(spec["box"]) == 3 or \
+                    all(sum(1 for x in spec["box"][3 * i:3 * i + 3] if x) == 1 for i in range(3))
+                if exact and inv_exact and rows_w != rows:
                     v.append((f"C14/{q['op']}/float64-arguments-differ", f"{q}: float32 args {rows} vs float64 args {rows_w}"))
             except Exception as e:  # noqa: BLE001
                 v.append((f"C14/{q['op']}/float64-arguments-differ", f"{q} with float64 arguments raised {type(e).__name__}: {e}"))
@@ -547,13 +615,18 @@ def _oracle_body(case):
             want, sup = _exact_sets(spec, q)
             if want is not None and rows != want:
                 i = next((k for k in range(min(len(rows), len(want))) if rows[k] != want[k]), 0)
-                v.append((f"C14/{tag}/not-exact", f"{q}: query {i} returned {rows[i] if i < len(rows) else None}, "
-                          f"exact brute force {want[i] if i < len(want) else None}"))
+                rmax = q["thr"] if q["op"] == "adj" else (q["rad"] if q["rad_kind"] == "s" else max(q["rad"] or [0]))
+                only_missing = len(rows) == len(want) and all(set(a) <= set(b) for a, b in zip(rows, want))
+                key = (K_TRICLINIC if (only_missing and _beyond_half_height(spec, rmax)) else f"C14/{tag}/not-exact")
+                v.append((key, f"{q}: query {i} returned {rows[i] if i < len(rows) else None}, "
+                          f"exact minimum-image brute force {want[i] if i < len(want) else None} (box {spec['box']})"))
             if sup is not None:
                 selv = spec["sel"] if spec["sel"] is not None else [True] * n
                 for i, (r, s) in enumerate(zip(rows, sup)):
                     if not set(s) <= set(r):
-                        v.append((f"C14/{tag}/not-superset", f"{q}: query {i} misses {sorted(set(s) - set(r))}"))
+                        rmax = (q["rad"] if q["rad_kind"] == "s" else max(q["rad"] or [0])) * spec["cs"]
+                        v.append((K_TRICLINIC if _beyond_half_height(spec, rmax) else f"C14/{tag}/not-superset",
+                                  f"{q}: query {i} misses {sorted(set(s) - set(r))} (box {spec['box']})"))
                         break
                     if any(not selv[j] for j in r):
                         v.append((f"C14/{tag}/unselected-returned", f"{q}: query {i} returned unselected atoms"))
@@ -636,17 +709,29 @@ def oracle(case):
 
 # ---------------------------------------------------------------- generator: exact stream
 def _grid_stats(coords, sel, cs, box):
-    """Exact cell assignment (ints): dims product and max cell occupancy (incl. periodic copies)."""
+    """Exact cell assignment (ints): dims product and max cell occupancy (incl. periodic copies).
+    box: None | 3 axis lengths | 9 ints (full matrix, rows = box vectors)."""
     pts = coords
     n = len(coords)
     sl = sel if sel is not None else [True] * n
     if box is not None:
-        base = [[c[a] % box[a] for a in range(3)] for c in coords]
+        if len(box) == 9:
+            rows = [box[0:3], box[3:6], box[6:9]]
+            inv = _mat_inv(box)
+            base = []
+            for c in coords:
+                f = [sum(Fraction(c[k]) * inv[k][i] for k in range(3)) for i in range(3)]
+                f = [x - math.floor(x) for x in f]
+                w = [sum(f[i] * rows[i][k] for i in range(3)) for k in range(3)]
+                base.append([int(x) for x in w])          # = c - floor(f) @ box: integral
+        else:
+            rows = [[box[0], 0, 0], [0, box[1], 0], [0, 0, box[2]]]
+            base = [[c[a] % box[a] for a in range(3)] for c in coords]
         pts = []
         for i in (0, -1, 1):
             for j in (0, -1, 1):
                 for k in (0, -1, 1):
-                    pts += [[b[0] + i * box[0], b[1] + j * box[1], b[2] + k * box[2]] for b in base]
+                    pts += [[b[a] + i * rows[0][a] + j * rows[1][a] + k * rows[2][a] for a in range(3)] for b in base]
         sl = sl * 27
     mn = [min(p[a] for p in pts) for a in range(3)]
     mx = [max(p[a] for p in pts) for a in range(3)]
@@ -689,12 +774,32 @@ def _exact_case(rng, periodic=False):
     style = rng.choice(["one", "cluster", "cluster", "collinear", "dups", "lattice", "random", "random"])
     n = 1 if style == "one" else rng.choice([2, 3, 5, 8, 12, 20, 30])
     box = None
+    lim_c = LIM
     if periodic:
         n = min(n, 10)
+        lim_c = 600
         box = [2 ** rng.randint(2, 8) for _ in range(3)]
         if rng.random() < 0.5:
             box = [box[0]] * 3
-    coords = _gen_coords(rng, style, n, LIM if not periodic else 600)
+        bt = rng.random()
+        if bt < 0.25:
+            # the same orthorhombic lattice, box vectors not along x,y,z in this order / direction:
+            # signed permutation matrix times lengths (row i = sign_i * L * e_perm[i]); exact in float32
+            perm = rng.choice([[0, 1, 2], [1, 0, 2], [2, 1, 0], [0, 2, 1], [1, 2, 0], [2, 0, 1]])
+            mat = [0] * 9
+            for i in range(3):
+                mat[3 * i + perm[i]] = rng.choice([1, 1, -1]) * box[perm[i]]
+            box = mat
+        elif bt < 0.6:
+            # triclinic, lower triangular, power-of-two diagonal (inverse is dyadic -> float32 exact), small entries
+            lx, ly, lz = [2 ** rng.randint(2, 5) for _ in range(3)]
+            if bt < 0.5:      # mildly skewed (|off-diagonal| <= half the diagonal of its column)
+                box = [lx, 0, 0, rng.randint(-lx // 2, lx // 2), ly, 0, rng.randint(-lx // 2, lx // 2), rng.randint(-ly // 2, ly // 2), lz]
+            else:             # strongly skewed cells (the 27 replicas may not contain the minimum image: known finding)
+                box = [lx, 0, 0, rng.randint(-2 * lx, 2 * lx), ly, 0, rng.randint(-lx, lx), rng.randint(-2 * ly, 2 * ly), lz]
+            S = min(S, 2)
+            lim_c = 200
+    coords = _gen_coords(rng, style, n, lim_c)
     n = len(coords)
     sel = None
     if rng.random() < 0.35:
@@ -709,25 +814,12 @@ def _exact_case(rng, periodic=False):
             break
         cs *= 2
     box_tok = "-" if box is None else _ints(box)
-    cells_ok = True
-    if box is not None and rng.random() < 0.5:
-        # the same orthorhombic lattice given by box vectors that are not along x,y,z in this order:
-        # signed permutation matrix times lengths (row i = sign_i * L * e_perm[i]); exact in float32
-        perm = rng.choice([[0, 1, 2], [1, 0, 2], [2, 1, 0], [0, 2, 1], [1, 2, 0], [2, 0, 1]])
-        signs = [rng.choice([1, 1, -1]) for _ in range(3)]
-        mat = [0] * 9
-        for i in range(3):
-            mat[3 * i + perm[i]] = signs[i] * box[perm[i]]
-        box_tok = _ints(mat)
-        cells_ok = all(sg > 0 for sg in signs)   # with a negative vector the wrapped region (hence the cell grid) differs from the model's
     ops = [f"new {S} {cs} {box_tok} {'-' if sel is None else ''.join('1' if s else '0' for s in sel)} "
            f"{_ints(x for c in coords for x in c)}"]
     ext = max(mx[a] - mn[a] for a in range(3))
     nq_total = 0
     for _ in range(rng.randint(1, 4)):
         kind = rng.choice(["atoms", "atoms", "atoms", "cells", "adj"])
-        if kind == "cells" and not cells_ok:
-            kind = "atoms"
         if kind == "adj":
             thr = rng.choice([0, 1, cs, 2 * cs, cs + 1, max(1, ext // 2), ext + 1, rng.randint(0, 60)])
             thr = _cap_radius(thr, cs, mcl, n)
@@ -1058,6 +1150,9 @@ def corpus():
                                            "adj 20", "atoms idx m 3,0,0,-100,50,7 m:9,1", "cells idx s 100,100,100 s:2"]},
         {"kind": "exact-periodic", "ops": ["new 1 4 8,16,32 01101 0,0,0,15,1,1,-1,-1,-1,8,16,32,9,17,33", "atoms idx m 0,0,0,7,15,31 s:3",
                                            "adj 4", "cells mask m 0,0,0,-9,-17,-33 m:1,0"]},
+        # general box matrices: mirrored + permuted orthorhombic box (Props example), triclinic within the half-height hypothesis
+        {"kind": "exact-periodic", "ops": ["new 0 2 0,8,0,-4,0,0,0,0,16 - 0,0,0,3,7,0", "atoms idx s 0,0,0 s:2", "adj 2", "cells idx s 1,1,1 s:1"]},
+        {"kind": "exact-periodic", "ops": ["new 0 2 4,0,0,2,4,0,1,-2,4 - 0,0,0,3,3,3,5,-1,2,-6,2,9", "atoms mask m 0,0,0,7,7,7 s:1", "adj 1"]},
         # selection: unselected atoms never returned, adjacency rows of unselected atoms empty
         {"kind": "exact", "ops": ["new 0 2 - 1010 0,0,0,1,0,0,2,0,0,3,0,0", "atoms idx s 1,0,0 s:5", "adj 2"]},
     ]
